@@ -16,7 +16,7 @@ SrcTypes == { T("/number"), T("/string"), T("/name"), T("/any"), <<"pre", <<"foo
 DstTypes == SrcTypes \cup { <<"pre", <<"foo", "a">>>>, <<"tpair", T("/any"), T("/any")>>, <<"tlist", T("/any")>>, <<"tmap", T("/any"), T("/number")>>,
                             <<"union", <<<<"pre", <<"foo">>>>, T("/number")>>>> }
 Templates == {"copy", "pair_with_string", "fst", "snd", "plus1", "join_other", "list_of", "member", "cons_self", "name_to_string", "struct_get_a", "map_of", "none",
-              "neg_prefix_below", "neg_prefix_eq", "pos_prefix_below", "neg_prefix_other"}
+              "neg_prefix_below", "neg_prefix_eq", "pos_prefix_below", "pos_prefix_eq", "neg_prefix_other"}
 Consts == { Num(0), Num(1), Str("a"), Str("x"), Cn(<<"foo", "a">>), Cn(<<"foo", "a", "b">>), Cn(<<"foo", "c">>), Cn(<<"foobar", "x">>), Cn(<<"bar">>), Cn(<<"bar", "b">>),
             Pair(Num(1), Str("a")), Pair(Cn(<<"foo", "a">>), Num(1)), Pair(Str("a"), Num(1)),
             List(<<>>), List(<<Num(1), Num(0)>>), List(<<Cn(<<"foo", "a">>)>>), List(<<Str("a")>>),
@@ -56,7 +56,7 @@ PrefDst == { <<"pre", <<"bar">>>>, <<"pre", <<"foo">>>>, <<"pre", <<"foo", "a">>
 PrefConsts == { Cn(<<"foo", "a">>), Cn(<<"foo", "a", "b">>), Cn(<<"foo", "c">>), Cn(<<"bar", "b">>), Cn(<<"foobar", "x">>) }
 Cases4 ==
   {[t1 |-> t1, t1b |-> <<>>, t2 |-> t2, t2b |-> <<>>, tpl |-> tp, facts |-> SetToSeq(fs), dstfact |-> <<>>] :
-     t1 \in PrefTypes, t2 \in PrefDst, tp \in {"copy", "neg_prefix_below", "neg_prefix_eq", "pos_prefix_below", "neg_prefix_other"},
+     t1 \in PrefTypes, t2 \in PrefDst, tp \in {"copy", "neg_prefix_below", "neg_prefix_eq", "pos_prefix_below", "pos_prefix_eq", "neg_prefix_other"},
      fs \in {{k} : k \in PrefConsts} \cup {{k1, k2} : k1 \in PrefConsts, k2 \in PrefConsts} }
 Cases == IF Family = "rows" THEN Cases2 ELSE IF Family = "recur" THEN Cases3 ELSE IF Family = "prefix" THEN Cases4 ELSE Cases1
 Init == c = <<>>
